@@ -276,6 +276,46 @@ def tie_b_kernels(res, workdir, parts=('ck', 'ubx', 'nmea')):
     return allok
 
 
+def tie_b_request(res, workdir):
+    """Tie B for the request loop: translate ubxlib/server_base.py (poll / set / set_mga / fire_and_forget / _wait / _send /
+    _check_*) of /repo's current source to Gallina over the Python semantics of coq/bridge/PySem.v
+    (py/vlib/translate_req.py), compile, and compile coq/bridge/BridgeReq.v (generated = Request.v model for every backend,
+    state and sufficient fuel). Translator rejection: recorded as unavailable, no alarm (Tie A decides). Bridge failure:
+    broken proof obligation."""
+    from . import translate, translate_req
+    gen = os.path.join(workdir, 'genr')
+    os.makedirs(gen, exist_ok=True)
+    try:
+        translate_req.emit_req_v(os.path.join(gen, 'ReqKernels.v'))
+    except translate.TranslateError as e:
+        res.notes['tie_B_request'] = f'unavailable: {e}'
+        return False
+    except Exception as e:
+        res.notes['tie_B_request'] = f'unavailable: {e!r}'
+        return False
+    xq = [(gen, 'UbxGen')]
+    rc, out = coqc(os.path.join(gen, 'ReqKernels.v'), gen, extra_q=xq)
+    if rc:
+        res.notes['tie_B_request'] = 'unavailable: generated ReqKernels.v does not type-check: ' + out[-400:]
+        return False
+    dst = os.path.join(gen, 'BridgeReq.v')
+    shutil.copy(os.path.join(COQ, 'bridge', 'BridgeReq.v'), dst)
+    rc, out = coqc(dst, gen, extra_q=xq)
+    ok = rc == 0
+    res.oblige('Tie B request loop: bridge lemmas BridgeReq.v (server_base.py translated to Gallina = Request.v model)', ok, out)
+    if ok:
+        bad = [a for a in parse_assumptions(out) if not a.startswith('Closed under')]
+        if bad:
+            raise MachineryFault('bridge lemma depends on axioms: ' + str(bad[:2]))
+        res.notes['tie_B_request'] = ('server_base.py regenerated from source and proved equal to the model: _wait, _send, _check_poll, '
+                                      '_check_ack_nak, _check_mga, poll, set, set_mga, fire_and_forget')
+    else:
+        res.notes['tie_B_request'] = 'bridge lemmas FAILED'
+        res.violation('Tie B: the request loop translated from the current source is no longer provably equal to the model',
+                      {'property': res.prop, 'broken': 'coq/bridge/BridgeReq.v', 'coqc_output': out[-2500:]}, 'bridge-request', False)
+    return ok
+
+
 # ------------------------------------------------------------------ model driver
 def run_driver(lines, timeout=3600):
     """Evaluate command lines with the extracted model; returns list of output lines."""
